@@ -6,6 +6,12 @@ CLAIMED = {
  "C01": ("6/C01", "Refinement of every pointer flip against a sequential reference model over seeded schedules of 2-4 committers (threads on one handle, separate handles, mixed), local and CAS-S3, fine/coarse/frozen clocks. Sampling, not proof: a clean batch is evidence over the explored interleavings."),
  "C02": ("6/C02", "Every read's result is compared with the committed snapshots current during its flip interval, over seeded schedules of readers x writers; sampling of interleavings at storage-operation granularity."),
  "C03": ("6/C03", "Process death injected before each storage-level seam call of each operation type (quick samples k, thorough sweeps every k) on seeded histories; reopen, read, append and GC checked after each crash. Exhaustive only over the crash points of the sampled histories."),
+ "C05": ("6/C05", "Seeded single-writer histories crossed with table-location spellings (absolute, relative, ./x, trailing slash, symlinked parent/root, names that are string prefixes of data/ and metadata/, S3 prefixes) and grace periods; each collection's deletions (from the event log) are checked against an independently computed reachable set plus open-transaction files, and old orphans must be gone. Sampling of histories; the spelling set is enumerated."),
+ "C06": ("6/C06", "Seeded interleavings of one collector with 1-2 long-running writers at storage-operation granularity, with targeted holds at every collector phase boundary and file ages on both sides of the grace period; oracle on the final metadata. Judged only when grace exceeds the collection's virtual duration."),
+ "C07": ("6/C07", "One untrusted input per run - exception at each storage call of the collection, each reachable metadata-plane file missing/truncated/noise, escaping listing entries at start/middle/end - on tables with retained snapshots, aged orphans, an open transaction and a dead mid-commit writer; quick samples, thorough sweeps every call and file."),
+ "C08": ("6/C08", "Seeded interleavings of 2-3 committers on the CAS-S3 model with process pauses and request stalls of 0.5-200 s at chosen S3 requests (lease 60 s), clock skew, lost pointer-PUT responses, with the real CAS lock and with a grant-all lock; refinement at every flip plus a fence-read oracle."),
+ "C18": ("6/C18", "Seeded interleavings of 2-3 creators/openers/first appenders over five initial states on local and CAS-S3; identity, schema and data of an existing table and uniqueness of initialisation checked at every flip and at the end."),
+ "C19": ("6/C19", "Seeded interleavings of 2-3 lock contenders: local FileLock cycles with holder death, local commits with a killed process, S3 CAS lock cycles with pauses/stalls around the lease and heartbeat actors, and the polling provider's two stated guarantees. Real multi-process stress is out of technique and not done."),
  "C04": ("6/C04", "One fault (exception before/after effect, disk full, KeyboardInterrupt/SystemExit) at each storage call of each commit type plus selected double faults, on local, CAS-S3 and non-CAS S3; outcome-indexed oracle (success=>post, ambiguous=>pre|post and files kept, storage error=>pre, interrupt=>pre|post)."),
 }
 NA = [
